@@ -51,6 +51,20 @@ Theorem C03_registers_exact : forall evs w f r,
   Permutation (fr_get (rr_get (restr_events [] evs) f) r) (spec_reg w f r).
 Proof. exact registers_exact. Qed.
 
+(* the faithfulness hypothesis is an invariant of the message-discipline layer.
+   Full statement (every operation of [Ops.md_op]); the engine layer's MD theorem: *)
+Definition C03_faithful_md_op_statement : Prop := forall evs w f o,
+  faithful_all evs w f ->
+  faithful_all (evs ++ snd (fst (md_op w o))) (fst (fst (md_op w o))) f.
+(* proved here only for operations that publish nothing on the register channels
+   and leave the items untouched (new solar system, the four reads); the
+   container / state / load / source operations are NOT covered here — for a
+   concrete history see C03_ex_faithful below *)
+Theorem C03_faithful_md_op_partial : forall evs w f o,
+  quiet_op o = true -> faithful_all evs w f ->
+  faithful_all (evs ++ snd (fst (md_op w o))) (fst (fst (md_op w o))) f.
+Proof. exact faithful_md_op_partial. Qed.
+
 (* --- 2. validate = stateless rules, every skip set; numbers included ------------ *)
 Theorem C03_validate_eq_spec : forall evs w f (Inv : derived -> Prop) val d skip,
   faithful_all evs w f -> coherent (read_attr PF w) Inv val -> Inv (d_clear d) ->
@@ -142,6 +156,7 @@ Print Assumptions C03_source_tables.
 Print Assumptions C03_register_exact_generic.
 Print Assumptions C03_all_registers_ok.
 Print Assumptions C03_registers_exact.
+Print Assumptions C03_faithful_md_op_partial.
 Print Assumptions C03_validate_eq_spec.
 Print Assumptions C03_verdict_cfg_only.
 Print Assumptions C03_reported_live.
